@@ -1414,6 +1414,40 @@ fn run_user_to_normalized(cfg: &Config, s: &mut Session, rng: &mut Rng) {
                 s.oracle("skrifa Axis::normalize = location (no avar)", matches!((&ax, &loc), (Ok(x), Ok(l)) if *x == l[ai]), || format!("axes={axes:?} axis {ai} value {vf}"), || format!("{ax:?} vs {loc:?}"));
             }
         }
+        // several settings incl. repeated axes: the documentation says the LAST setting of an axis wins, so the
+        // result must equal the one obtained from the last setting of each axis alone (model independent)
+        for _ in 0..3 {
+            let k = rng.range(2, 5) as usize;
+            let settings: Vec<(usize, i32)> = (0..k)
+                .map(|_| {
+                    let ai = rng.below(n_axes as u64) as usize;
+                    let (a, b, c) = axes[ai];
+                    let v = match rng.below(4) { 0 => a, 1 => b, 2 => c, _ => rng.range(a.min(c) as i64 - 70000, a.max(c) as i64 + 70000) as i32 };
+                    (ai, v >> 8 << 8)
+                })
+                .collect();
+            let mut last: Vec<Option<i32>> = vec![None; n_axes];
+            for (ai, v) in &settings {
+                last[*ai] = Some(*v);
+            }
+            let tags: Vec<_> = fvar.axes().unwrap().iter().map(|a| a.axis_tag()).collect();
+            let all = catch(|| {
+                let mut out = vec![F2Dot14::ZERO; n_axes];
+                fvar.user_to_normalized(avar.as_ref(), settings.iter().map(|(ai, v)| (tags[*ai], Fixed::from_bits(*v))), &mut out);
+                out.iter().map(|x| x.to_bits()).collect::<Vec<i16>>()
+            });
+            let only_last = catch(|| {
+                let mut out = vec![F2Dot14::ZERO; n_axes];
+                fvar.user_to_normalized(avar.as_ref(), last.iter().enumerate().filter_map(|(ai, v)| v.map(|v| (tags[ai], Fixed::from_bits(v)))), &mut out);
+                out.iter().map(|x| x.to_bits()).collect::<Vec<i16>>()
+            });
+            s.oracle("user_to_normalized-repeated-axis-last-setting-wins", all.is_ok() && all == only_last,
+                || format!("axes={axes:?} avar={} settings={settings:?}", if with_avar { format!("{maps:?}") } else { "-".into() }), || format!("all {all:?} vs last-only {only_last:?}"));
+            let loc_all = catch(|| fref.axes().location(settings.iter().map(|(ai, v)| (tags[*ai], *v as f32 / 65536.0))).coords().iter().map(|x| x.to_bits()).collect::<Vec<i16>>());
+            let loc_last = catch(|| fref.axes().location(last.iter().enumerate().filter_map(|(ai, v)| v.map(|v| (tags[ai], v as f32 / 65536.0)))).coords().iter().map(|x| x.to_bits()).collect::<Vec<i16>>());
+            s.oracle("skrifa-location-repeated-axis-last-setting-wins", loc_all.is_ok() && loc_all == loc_last,
+                || format!("axes={axes:?} settings={settings:?}"), || format!("all {loc_all:?} vs last-only {loc_last:?}"));
+        }
     }
 }
 
